@@ -397,7 +397,11 @@ def run(ctx):
         benv = g.model_env()
         compare(acc, src, benv, origin, node=node)
         if benv and j % 4 == 0:
-            reuse(acc, src, binding_sequences(rnd, benv), origin, node=node, declare=rnd.random() < 0.5)
+            seq = binding_sequences(rnd, benv)
+            if rnd.random() < 0.6:
+                # the same names with other values, then the first values again
+                seq = [dict(benv), g.redraw_env(), g.redraw_env()] + seq
+            reuse(acc, src, seq, origin, node=node, declare=rnd.random() < 0.5)
         if j % 997 == 0:
             acc.sample({"src": src, "bindings": MV.enc_env(benv), "origin": origin})
     acc.extra["generated_cases"] = n
